@@ -2,9 +2,29 @@
  * C09 (TLS never fails open: OpenSSL is configured with exactly the socket's policy, the verdict is consulted, application
  *      data moves only in state ready), C02/C06 (btls_send/btls_receive over SSL_write/SSL_read; terminal states stick),
  * C18 (finalize_tls_conf/get_file: per-socket designation first, otherwise the defaults as they stand at the call).
- * OpenSSL is env/ssl_env.h (TRUSTED).  slist_*, item_*, ut_*, getenv, ctx_store_*, xpoll_*, the btcp sub-socket are other
- * modules: ASSUMED here (stub bodies / contracts below).
+ * OpenSSL is env/ssl_env.h (TRUSTED).  slist_*, item_*, ut_*, getenv, ctx_store_*, xpoll_*, log_tls_*, xcm_addr_*, the btcp
+ * sub-socket are other modules: ASSUMED here (stub bodies / contracts below).
  * Attached to the REAL static functions by redeclaration after the TU has been #included.
+ *
+ * The inductive argument for C09 (each step is one job):
+ *   CONFIGURED  OpenSSL holds exactly the socket's policy        established by btls_connect / btls_accept (via set_verify,
+ *               (mode, flags, host flags, every expected name)    enable_hostname_validation, finalize_tls_conf) BEFORE the
+ *                                                                 state becomes handshaking; required by every handshake step
+ *   READY       state ready  =>  handshake done AND verdict      established by try_finish_tls_handshake (+ verify_peer_cert),
+ *               satisfies the policy                              the only place that writes `ready`
+ *   policy fields do not change past `initialized`                set_*_attr refuse with EACCES
+ *   SSL_write / SSL_read are entered only in state ready          btls_send / btls_receive (they REQUIRE the invariants and
+ *                                                                 re-establish them)
+ *
+ * Obligations that FAIL on the unchanged tree (see the report of unit btls; native reproductions in the report):
+ *   btls_send.discovering_call_reports       btls_send checks bad/closed BEFORE its handshake step: the call that discovers a
+ *                                            failed handshake (certificate refused, reset, close) returns EAGAIN, the next one EPROTO
+ *   btls_receive.closed_only_if_close_seen   (variant zero) xcm_receive(conn, buf, 0): SSL_read(.., 0) returns 0, classified as
+ *                                            SYSCALL/errno 0 => a healthy connection is declared closed, pending data lost
+ *   conversion checks at SSL_write/SSL_read  (variant huge) size_t len/capacity narrowed to int: 2 GiB => EPROTO and a dead
+ *   + data_only_when_ready, closed_only_..   connection, 4 GiB => declared closed
+ *   btls_accept.bio_attached                 btls_accept ignores the result of set_bio() (BIO_new failure)
+ *   set_peer_names_attr.failed_set_has_no_effect   the old name list is destroyed before the new one is validated (DESIGN F14)
  */
 #ifndef XV_BTLS_H
 #define XV_BTLS_H
@@ -70,6 +90,7 @@ void log_tls_get_verification_failure_reason(X509_STORE_CTX *store_ctx, char *bu
  * socket's valid_peer_names); it has xv_slist_n elements, the element at position xv_hk (never assigned, env/ssl_env.h)
  * is xv_slist_name_k, every other element is some non-NULL string.  Facts proved about position xv_hk hold for all. */
 size_t xv_slist_n; const char *xv_slist_name_k;
+long xv_slist_split_calls; struct slist *xv_slist_split_ret; long xv_dns_valid_calls;
 long xv_slist_destroy_calls; const struct slist *xv_slist_destroyed;
 #define XV_SLIST_N_MAX (1UL << 40)
 size_t slist_len(const struct slist *slist)
@@ -104,6 +125,7 @@ struct slist *slist_clone(const struct slist *orig)
 }
 static inline void xv_btls_havoc(void)
 {
+    xv_slist_split_calls = nondet_long(); xv_slist_split_ret = (struct slist *)nondet_size_t(); xv_dns_valid_calls = nondet_long();
     xv_slist_clone_calls = nondet_long(); xv_slist_clone_src = (const struct slist *)nondet_size_t(); xv_slist_clone_ret = (struct slist *)nondet_size_t();
     xv_slist_n = nondet_size_t(); xv_slist_name_k = (const char *)nondet_size_t();
     xv_slist_destroy_calls = nondet_long(); xv_slist_destroyed = (const struct slist *)nondet_size_t();
@@ -144,6 +166,16 @@ void item_set_file(struct item *item, const char *filename, bool sensitive)
         } else
             xv_it_w_nargs = -1;
     }
+}
+long xv_it_w_valsets; size_t xv_it_w_vallen; _Bool xv_it_w_valsens;
+/* TRUSTED(xcm item.c) item_set_value_n: same text as item.c with the string copy opaque; recorded for the watched item */
+void item_set_value_n(struct item *item, const char *value, size_t len, bool sensitive)
+{
+    __CPROVER_assert(len == 0 || __CPROVER_r_ok(value, len), "item_set_value_n: value readable for len bytes");
+    item_deinit(item);
+    char *d = malloc(1); __CPROVER_assume(d != NULL);
+    item->type = item_type_value; item->sensitive = sensitive; item->data = d;
+    if (item == xv_it_watch) { xv_it_w_valsets++; xv_it_w_vallen = len; xv_it_w_valsens = sensitive; }
 }
 void item_copy(const struct item *src_item, struct item *dst_item)
 {
@@ -211,6 +243,7 @@ char *getenv(const char *name)
 static inline void xv_conf_havoc(void)
 {
     xv_it_watch = (struct item *)nondet_size_t();
+    xv_it_w_valsets = nondet_long(); xv_it_w_vallen = nondet_size_t(); xv_it_w_valsens = nondet_bool();
     xv_it_w_deinits = nondet_long(); xv_it_w_sets = nondet_long(); xv_it_w_copies = nondet_long(); xv_it_w_src = (const struct item *)nondet_size_t();
     xv_it_w_fmt = xv_it_w_a = xv_it_w_b = (const char *)nondet_size_t(); xv_it_w_nargs = nondet_int(); xv_it_w_a_default = nondet_bool();
     xv_asp_calls = nondet_long(); xv_asp_fmt = xv_asp_a = xv_asp_b = (const char *)nondet_size_t(); xv_asp_nargs = nondet_int(); xv_asp_ret = (char *)nondet_size_t();
@@ -247,6 +280,7 @@ void ctx_store_put(SSL_CTX *ssl_ctx)
     xv_ctx_refs--;
 }
 struct xcm_socket *xv_low_s;
+int xv_low_accept_ret;
 long xv_low_connects, xv_low_accepts, xv_low_closes, xv_low_destroys, xv_low_updates; int xv_low_update_cond;
 int xcm_tp_socket_connect(struct xcm_socket *s, const char *remote_addr)
 {
@@ -257,7 +291,8 @@ int xcm_tp_socket_connect(struct xcm_socket *s, const char *remote_addr)
 int xcm_tp_socket_accept(struct xcm_socket *conn_s, struct xcm_socket *server_s)
 {
     xv_low_accepts++; xv_low_s = conn_s;
-    if (nondet_bool()) { int e = nondet_int(); __CPROVER_assume(e > 0); xv_errno = e; return -1; }
+    if (nondet_bool()) { int e = nondet_int(); __CPROVER_assume(e > 0); xv_errno = e; xv_low_accept_ret = -1; return -1; }
+    xv_low_accept_ret = 0;
     return 0;
 }
 void xcm_tp_socket_close(struct xcm_socket *s) { xv_low_closes++; }
@@ -299,7 +334,7 @@ void slist_append(struct slist *slist, const char *str)
 }
 #define XV_OTHER_ASSIGNS xv_bell_adds, xv_bell_dels, xv_bell_mods, xv_bell_ringing, xv_ctx_get_calls, xv_ctx_refs, xv_ctx_cert, xv_ctx_key, xv_ctx_tc, xv_ctx_crl, \
                          xv_ctx_cert_type, xv_ctx_key_type, xv_ctx_tc_type, xv_ctx_crl_type, \
-                         xv_low_connects, xv_low_accepts, xv_low_closes, xv_low_destroys, xv_low_s, xv_addr_valid, xv_slist_create_calls, xv_slist_created, \
+                         xv_low_connects, xv_low_accepts, xv_low_accept_ret, xv_low_closes, xv_low_destroys, xv_low_s, xv_addr_valid, xv_slist_create_calls, xv_slist_created, \
                          xv_slist_n, xv_slist_name_k, xv_slist_destroy_calls, xv_slist_destroyed
 #define XV_OTHER_LIM(lim) (XV_CNT_LIM(xv_bell_adds, lim) && XV_CNT_LIM(xv_bell_dels, lim) && XV_CNT_LIM(xv_bell_mods, lim) && XV_CNT_LIM(xv_ctx_get_calls, lim) && XV_CNT_LIM(xv_ctx_refs, lim) && \
                         XV_CNT_LIM(xv_low_connects, lim) && XV_CNT_LIM(xv_low_accepts, lim) && XV_CNT_LIM(xv_low_closes, lim) && XV_CNT_LIM(xv_low_destroys, lim) && \
@@ -317,6 +352,20 @@ static inline void xv_other_havoc(void)
     xv_addr_valid = nondet_bool(); xv_addr_is_name = nondet_bool(); xv_slist_create_calls = nondet_long(); xv_slist_created = (struct slist *)nondet_size_t();
     xv_ssl_new_havoc();
 }
+/* TRUSTED(xcm xcm_tp.c) xcm_tp_set_bool_attr: same text (copies the one byte of a bool attribute value) */
+void xcm_tp_set_bool_attr(const void *buf, size_t len, bool *value) { *(uint8_t *)value = *(const uint8_t *)buf; }
+/* TRUSTED(xcm slist.c, xcm_dns.c) slist_split: a new list of ANY length (0 for an empty string); xcm_dns_is_valid_name: any verdict */
+long xv_slist_split_calls; struct slist *xv_slist_split_ret; long xv_dns_valid_calls;
+struct slist *slist_split(const char *str, char delim)
+{
+    __CPROVER_assert(str != NULL && __CPROVER_r_ok(str, 1), "slist_split: string given");
+    struct slist *l = malloc(1); __CPROVER_assume(l != NULL);
+    size_t n = nondet_size_t(); __CPROVER_assume(n < XV_SLIST_N_MAX);
+    xv_slist_split_calls++; xv_slist_split_ret = l; xv_slist_n = n;
+    const char *k = (const char *)nondet_size_t(); __CPROVER_assume(k != NULL); xv_slist_name_k = k;
+    return l;
+}
+bool xcm_dns_is_valid_name(const char *name) { xv_dns_valid_calls++; return nondet_bool(); }
 
 /* ================================================================================================================ */
 /* C09: configuration of OpenSSL                                                                                     */
@@ -463,8 +512,9 @@ __CPROVER_ensures(__CPROVER_return_value == 0 ==> (xv_x509_nhosts == (long)xv_sl
                                                     xv_x509_host_resets == __CPROVER_old(xv_x509_host_resets) + 1 && \
                                                     xv_x509_add_calls == __CPROVER_old(xv_x509_add_calls) + (long)xv_slist_n && \
                                                     ((xv_hk >= 0 && xv_hk < (long)xv_slist_n) ==> xv_x509_host_k == xv_slist_name_k)))
-__CPROVER_ensures(XV_GROW(xv_get0_param_calls, 1) && XV_GROW(xv_x509_set_hostflags_calls, 1) && XV_GROW(xv_x509_host_resets, 1) && XV_GROW(xv_x509_add_calls, (long)xv_slist_n) && \
-                  xv_x509_nhosts >= 0 && xv_x509_nhosts <= (long)xv_slist_n + __CPROVER_old(xv_x509_nhosts))
+__CPROVER_ensures(XV_GROW(xv_get0_param_calls, 1) && XV_GROW(xv_x509_set_hostflags_calls, 1) && XV_GROW(xv_x509_host_resets, 1) && \
+                  (BT(s)->valid_peer_names == NULL ? (xv_x509_add_calls == __CPROVER_old(xv_x509_add_calls) && xv_x509_nhosts == __CPROVER_old(xv_x509_nhosts)) \
+                                                   : (XV_GROW(xv_x509_add_calls, (long)xv_slist_n) && xv_x509_nhosts >= 0 && xv_x509_nhosts <= (long)xv_slist_n + __CPROVER_old(xv_x509_nhosts))))
 /* PO[C09] enable_hostname_validation.no_partial_success: a name OpenSSL refuses makes the whole call fail */
 __CPROVER_ensures((BT(s)->tls_auth && BT(s)->valid_peer_names != NULL && __CPROVER_return_value == -1) ==> xv_x509_nhosts < (long)xv_slist_n)
 ;
@@ -503,7 +553,7 @@ __CPROVER_ensures((BT(s)->tls_auth && BT(s)->valid_peer_names != NULL && __CPROV
 #define BT_LOWER_RECV_ENSURES(s, rv, buf, capacity) ( \
     ((rv) == -1 && xv_errno > 0 && xv_rx_off == __CPROVER_old(xv_rx_off) && ((BT_STATE(s) == conn_state_closed) == (BT_OLD_STATE(s) == conn_state_closed)) && \
         (xv_errno != EAGAIN ==> BT_DEAD_STATE(s)) && (BT_WAS_DEAD(s) ==> xv_errno != EAGAIN)) || \
-    ((rv) == 0 && BT_STATE(s) == conn_state_closed && xv_rx_off == __CPROVER_old(xv_rx_off)) || \
+    ((rv) == 0 && ((capacity) == 0 ? (BT_STATE(s) == BT_OLD_STATE(s) || BT_HS_ENTERED) : BT_STATE(s) == conn_state_closed) && xv_rx_off == __CPROVER_old(xv_rx_off)) || \
     ((rv) >= 1 && (size_t)(rv) <= (capacity) && BT_OLD_STATE(s) != conn_state_closed && BT_STATE(s) != conn_state_closed && \
         xv_rx_off == __CPROVER_old(xv_rx_off) + (rv) && XV_RX_BYTES(buf, __CPROVER_old(xv_rx_off), (rv))))
 
@@ -541,7 +591,7 @@ __CPROVER_assigns(BT_STATE(s), BT(s)->conn.badness_reason, BT(s)->conn.ssl_condi
 __CPROVER_ensures(__CPROVER_return_value == -1 || (__CPROVER_return_value >= 0 && (size_t)__CPROVER_return_value <= len && (len > 0 ==> __CPROVER_return_value >= 1)))
 /* PO[C09,C02] btls_send.data_only_when_ready: SSL_write is entered at most once, ONLY in state ready (verdict satisfied the policy), on the socket's own SSL, with exactly (buf, len) */
 __CPROVER_ensures(xv_sw_calls != __CPROVER_old(xv_sw_calls) ==> (xv_sw_calls == __CPROVER_old(xv_sw_calls) + 1 && BT_WAS_READY_FOR_DATA(s) && xv_ssl_hs_done && BT_VERDICT_OK(s) && \
-                                                                 xv_sw_ssl == BT(s)->conn.ssl && xv_sw_buf == buf && xv_sw_num >= 0 && (size_t)xv_sw_num == len))
+                                                                 xv_sw_ssl == BT(s)->conn.ssl && xv_sw_buf == buf && xv_sw_num >= 0 && (size_t)xv_sw_num == (len > 2147483647UL ? 2147483647UL : len)))
 /* PO[C06] btls_send.bad_sticks: a bad socket reports its stored errno, stays bad, and OpenSSL is not entered */
 __CPROVER_ensures(BT_OLD_STATE(s) == conn_state_bad ==> (__CPROVER_return_value == -1 && xv_errno == __CPROVER_old(BT(s)->conn.badness_reason) && BT_STATE(s) == conn_state_bad && \
                                                          BT(s)->conn.badness_reason == __CPROVER_old(BT(s)->conn.badness_reason) && BT_SSL_UNTOUCHED))
@@ -585,7 +635,7 @@ __CPROVER_assigns(capacity > 0: __CPROVER_object_upto(buf, capacity))
 __CPROVER_ensures(__CPROVER_return_value >= -1 && (__CPROVER_return_value >= 0 ==> (size_t)__CPROVER_return_value <= capacity))
 /* PO[C09,C02] btls_receive.data_only_when_ready: SSL_read is entered at most once, ONLY in state ready (verdict satisfied the policy), on the socket's own SSL, with exactly (buf, capacity) */
 __CPROVER_ensures(xv_sr_calls != __CPROVER_old(xv_sr_calls) ==> (xv_sr_calls == __CPROVER_old(xv_sr_calls) + 1 && BT_WAS_READY_FOR_DATA(s) && xv_ssl_hs_done && BT_VERDICT_OK(s) && \
-                                                                 xv_sr_ssl == BT(s)->conn.ssl && xv_sr_buf == buf && xv_sr_num >= 0 && (size_t)xv_sr_num == capacity))
+                                                                 xv_sr_ssl == BT(s)->conn.ssl && xv_sr_buf == buf && xv_sr_num >= 1 && (size_t)xv_sr_num == (capacity > 2147483647UL ? 2147483647UL : capacity)))
 /* PO[C09] btls_receive.no_data_unless_read: unless SSL_read was entered the caller's buffer is untouched */
 __CPROVER_ensures((xv_sr_calls == __CPROVER_old(xv_sr_calls) && xv_j >= 0 && (size_t)xv_j < capacity) ==> BT_U8(buf)[xv_j] == xv_g_rb_j)
 /* PO[C06] btls_receive.bad_sticks */
@@ -828,10 +878,12 @@ __CPROVER_ensures(XV_GROW(xv_bell_dels, 1) && XV_GROW(xv_slist_destroy_calls, 1)
 /* policy combinations a connection may not be created with: the four of finalize_tls_conf, and name verification without authentication or without any name to expect */
 #define BT_NAMES_NEEDED_MISSING(s, may_use_host) (BT(s)->verify_peer_name && __CPROVER_old(BT(s)->valid_peer_names) == NULL && !(may_use_host))
 #define BT_INVALID_POLICY(s, may_use_host) (BT_INCONSISTENT(s) || (BT(s)->verify_peer_name && !BT(s)->tls_auth) || BT_NAMES_NEEDED_MISSING(s, may_use_host))
-/* what a successful set-up leaves: handshaking or ready, one SSL made from the context fetched for the socket's own four items, its BIO on the btcp sub-socket */
-#define BT_SETUP_OK(s) ((BT_STATE(s) == conn_state_tls_handshaking || BT_STATE(s) == conn_state_ready) && BT_CONN_INV(s) && BT(s)->conn.ssl == XV_SSL && BT(s)->ssl_ctx == XV_CTX && \
-                        xv_ssl_new_ctx == XV_CTX && xv_ctx_get_calls == __CPROVER_old(xv_ctx_get_calls) + 1 && xv_ctx_refs == __CPROVER_old(xv_ctx_refs) + 1 && \
-                        xv_set_bio_ssl == XV_SSL && xv_set_bio_r == XV_BIO && xv_set_bio_w == XV_BIO && xv_bio_data == (void *)BT(s)->btcp_socket)
+/* what a successful set-up leaves: handshaking, ready -- or closed, when the peer hung up during the first handshake step (reported as
+ * EPIPE / 0 by the next operation) --, one SSL made from the context fetched for the socket's own four items */
+#define BT_SETUP_OK(s) ((BT_STATE(s) == conn_state_tls_handshaking || BT_STATE(s) == conn_state_ready || BT_STATE(s) == conn_state_closed) && BT_CONN_INV(s) && BT(s)->conn.ssl == XV_SSL && BT(s)->ssl_ctx == XV_CTX && \
+                        xv_ssl_new_ctx == XV_CTX && xv_ctx_get_calls == __CPROVER_old(xv_ctx_get_calls) + 1 && xv_ctx_refs == __CPROVER_old(xv_ctx_refs) + 1)
+/* the new SSL reads and writes through one BIO whose data is the socket's btcp sub-socket */
+#define BT_BIO_ATTACHED(s) (xv_set_bio_ssl == XV_SSL && xv_set_bio_r == XV_BIO && xv_set_bio_w == XV_BIO && xv_bio_data == (void *)BT(s)->btcp_socket)
 /* exactly the socket's policy was given to OpenSSL, once, on the new SSL: mode, flags added to the context's, names */
 #define BT_SETUP_EXACT(s) (xv_ssl_set_verify_calls == 1 && xv_ssl_set_verify_ssl == XV_SSL && xv_ssl_set_verify_mode == BT_MODE(BT(s)->tls_client, BT(s)->tls_auth) && \
                            xv_ssl_set_verify_cb == verify_cb && xv_x509_flags == (xv_x509_flags0 | BT_XFLAGS(BT(s)->check_crl, BT(s)->check_time)) && \
@@ -855,7 +907,13 @@ __CPROVER_ensures(BT_INVALID_POLICY(s, xv_addr_is_name) ==> (__CPROVER_return_va
 /* PO[C09] btls_connect.configured_before_handshake: if a handshake step was made, OpenSSL had been given exactly the socket's policy -- verify mode, CRL/time flags, host flags and every expected name (the address's host name when none was given) -- on the SSL that did the step */
 __CPROVER_ensures(BT_HS_IN_SETUP(s) ==> (xv_hs_calls == 1 && xv_hs_ssl == XV_SSL && BT_SETUP_EXACT(s) && xv_low_connects == __CPROVER_old(xv_low_connects) + 1))
 /* PO[C09] btls_connect.success: success means: policy consistent, OpenSSL configured with it, handshaking or (verdict satisfying the policy) ready */
-__CPROVER_ensures(__CPROVER_return_value == 0 ==> (BT_SETUP_OK(s) && BT_SETUP_EXACT(s) && !BT_INVALID_POLICY(s, xv_addr_is_name) && xv_hs_calls == 1))
+__CPROVER_ensures(__CPROVER_return_value == 0 ==> (BT_SETUP_OK(s) && xv_hs_calls == 1))
+/* PO[C02] btls_connect.bio_attached */
+__CPROVER_ensures(__CPROVER_return_value == 0 ==> BT_BIO_ATTACHED(s))
+/* PO[C09] btls_connect.success_exact_policy */
+__CPROVER_ensures(__CPROVER_return_value == 0 ==> BT_SETUP_EXACT(s))
+/* PO[C09] btls_connect.success_only_valid_policy */
+__CPROVER_ensures(__CPROVER_return_value == 0 ==> !BT_INVALID_POLICY(s, xv_addr_is_name))
 /* PO[C09] btls_connect.policy_not_met_is_eproto: the handshake completed at once but the verdict does not satisfy the policy: EPROTO */
 __CPROVER_ensures((BT_HS_IN_SETUP(s) && xv_hs_ret >= 1 && !BT_VERDICT_OK(s)) ==> (__CPROVER_return_value == -1 && xv_errno == EPROTO))
 /* PO[C18] btls_connect.own_credentials: the TLS context is fetched once, for the socket's own four items as they stand after finalize_tls_conf */
@@ -870,19 +928,145 @@ __CPROVER_requires(BT_PROTO(server_s))
 __CPROVER_assigns(BT_SETUP_ASSIGNS)
 __CPROVER_assigns(BT_SETUP_SOCK_ASSIGNS(conn_s))
 __CPROVER_ensures(__CPROVER_return_value == 0 || (__CPROVER_return_value == -1 && xv_errno > 0))
-/* PO[C09] btls_accept.invalid_policy_refused: an accepted connection whose (inherited and overridden) policy is invalid -- an accepted socket has no host name to fall back on -- never reaches a handshake: EINVAL once a TCP connection was there and the credentials loaded */
+/* PO[C09] btls_accept.invalid_policy_refused: an accepted connection whose (inherited and overridden) policy is invalid -- an accepted socket has no host name to fall back on -- never reaches a handshake; with a TCP connection accepted, the four inconsistencies are reported as EINVAL */
 __CPROVER_ensures(BT_INVALID_POLICY(conn_s, 0) ==> (__CPROVER_return_value == -1 && BT_NO_HS_IN_SETUP(conn_s) && \
-                                                    ((xv_low_accepts != __CPROVER_old(xv_low_accepts) && BT_INCONSISTENT(conn_s)) ==> (xv_errno == EINVAL || BT(conn_s)->btcp_socket != NULL))))
+                                                    ((BT_INCONSISTENT(conn_s) && xv_low_accepts == __CPROVER_old(xv_low_accepts) + 1 && xv_low_accept_ret == 0) ==> xv_errno == EINVAL)))
 /* PO[C09] btls_accept.configured_before_handshake */
 __CPROVER_ensures(BT_HS_IN_SETUP(conn_s) ==> (xv_hs_calls == 1 && xv_hs_ssl == XV_SSL && BT_SETUP_EXACT(conn_s)))
 /* PO[C09] btls_accept.success */
-__CPROVER_ensures(__CPROVER_return_value == 0 ==> (BT_SETUP_OK(conn_s) && BT_SETUP_EXACT(conn_s) && !BT_INVALID_POLICY(conn_s, 0) && xv_hs_calls == 1))
+__CPROVER_ensures(__CPROVER_return_value == 0 ==> (BT_SETUP_OK(conn_s) && xv_hs_calls == 1))
+/* PO[C02] btls_accept.bio_attached */
+__CPROVER_ensures(__CPROVER_return_value == 0 ==> BT_BIO_ATTACHED(conn_s))
+/* PO[C09] btls_accept.success_exact_policy */
+__CPROVER_ensures(__CPROVER_return_value == 0 ==> BT_SETUP_EXACT(conn_s))
+/* PO[C09] btls_accept.success_only_valid_policy */
+__CPROVER_ensures(__CPROVER_return_value == 0 ==> !BT_INVALID_POLICY(conn_s, 0))
 /* PO[C09] btls_accept.policy_not_met_is_eproto */
 __CPROVER_ensures((BT_HS_IN_SETUP(conn_s) && xv_hs_ret >= 1 && !BT_VERDICT_OK(conn_s)) ==> (__CPROVER_return_value == -1 && xv_errno == EPROTO))
 /* PO[C18] btls_accept.own_credentials: the context is fetched for the ACCEPTED socket's items (inherited or overridden), never the server socket's */
 __CPROVER_ensures(xv_ctx_get_calls != __CPROVER_old(xv_ctx_get_calls) ==> (xv_ctx_get_calls == __CPROVER_old(xv_ctx_get_calls) + 1 && BT_CTX_FROM_OWN(conn_s)))
 /* PO[C18] btls_accept.failure_releases_ctx */
 __CPROVER_ensures(__CPROVER_return_value == -1 ==> xv_ctx_refs == __CPROVER_old(xv_ctx_refs))
+;
+
+/* ================================================================================================================ */
+/* C09 (C11): the policy is fixed once the connection leaves state initialized                                        */
+/* ================================================================================================================ */
+/* The invariants CONFIGURED and READY above speak about tls.auth, tls.client, tls.check_crl, tls.check_time and
+ * tls.verify_peer_name as OpenSSL was given them; they stay true because the setters refuse (EACCES) on a connection that
+ * is past `initialized`, leaving the field alone.  (Server sockets may be changed at any time: they never handshake.) */
+#define BT_BOOL_SETTER_CONTRACT(field) \
+__CPROVER_requires(BT_FRESH(s) && __CPROVER_is_fresh(value, sizeof(bool)) && BT_BOOL(*BT_U8(value)) && (s->type == xcm_socket_type_conn || s->type == xcm_socket_type_server)) \
+__CPROVER_assigns(xv_errno, BT(s)->field) \
+__CPROVER_ensures((BT_IS_CONN(s) && BT_STATE(s) != conn_state_initialized) \
+        ? (__CPROVER_return_value == -1 && xv_errno == EACCES && BT(s)->field == __CPROVER_old(BT(s)->field)) \
+        : (__CPROVER_return_value == 0 && BT(s)->field == *BT_U8(value) && xv_errno == __CPROVER_old(xv_errno)))
+static int set_client_attr(struct xcm_socket *s, void *context, const void *value, size_t len)
+/* PO[C09,C11] set_client_attr.only_at_creation */
+BT_BOOL_SETTER_CONTRACT(tls_client)
+;
+static int set_auth_attr(struct xcm_socket *s, void *context, const void *value, size_t len)
+/* PO[C09,C11] set_auth_attr.only_at_creation */
+BT_BOOL_SETTER_CONTRACT(tls_auth)
+;
+static int set_check_crl_attr(struct xcm_socket *s, void *context, const void *value, size_t len)
+/* PO[C09,C11] set_check_crl_attr.only_at_creation */
+BT_BOOL_SETTER_CONTRACT(check_crl)
+;
+static int set_check_time_attr(struct xcm_socket *s, void *context, const void *value, size_t len)
+/* PO[C09,C11] set_check_time_attr.only_at_creation */
+BT_BOOL_SETTER_CONTRACT(check_time)
+;
+static int set_verify_peer_name_attr(struct xcm_socket *s, void *context, const void *value, size_t len)
+/* PO[C09,C11] set_verify_peer_name_attr.only_at_creation */
+BT_BOOL_SETTER_CONTRACT(verify_peer_name)
+;
+
+/* ---- set_peer_names_attr (tls.peer_names) */
+static int set_peer_names_attr(struct xcm_socket *s, void *context, const void *value, size_t len)
+__CPROVER_requires(BT_FRESH(s) && __CPROVER_is_fresh(value, 1) && (s->type == xcm_socket_type_conn || s->type == xcm_socket_type_server) && BT_NAMES_INV(s))
+__CPROVER_requires(XV_SSL_CNT_OK(xv_slist_destroy_calls) && XV_SSL_CNT_OK(xv_slist_split_calls) && XV_SSL_CNT_OK(xv_dns_valid_calls))
+__CPROVER_assigns(xv_errno, BT(s)->valid_peer_names, BT(s)->valid_peer_names_set, xv_slist_destroy_calls, xv_slist_destroyed, xv_slist_split_calls, xv_slist_split_ret, \
+                  xv_slist_n, xv_slist_name_k, xv_dns_valid_calls)
+__CPROVER_ensures(__CPROVER_return_value == 0 || (__CPROVER_return_value == -1 && (xv_errno == EACCES || xv_errno == EINVAL)))
+/* PO[C09,C11] set_peer_names_attr.only_at_creation */
+__CPROVER_ensures((BT_IS_CONN(s) && BT_STATE(s) != conn_state_initialized) ==> (__CPROVER_return_value == -1 && xv_errno == EACCES && \
+                  BT(s)->valid_peer_names == __CPROVER_old(BT(s)->valid_peer_names) && xv_slist_destroy_calls == __CPROVER_old(xv_slist_destroy_calls)))
+/* PO[C09] set_peer_names_attr.names_never_empty: a name list, when present, is not empty (what enable_hostname_validation relies on: an empty list would switch name checking off inside OpenSSL) */
+__CPROVER_ensures(BT_NAMES_INV(s))
+/* PO[C09] set_peer_names_attr.every_name_validated: on success every name of the new list went through xcm_dns_is_valid_name, the list is the socket's, and it is marked as set on this socket */
+__CPROVER_ensures(__CPROVER_return_value == 0 ==> (BT(s)->valid_peer_names_set == 1 && xv_dns_valid_calls == __CPROVER_old(xv_dns_valid_calls) + (long)xv_slist_n && \
+                                                    (xv_slist_n > 0 ? BT(s)->valid_peer_names == xv_slist_split_ret : BT(s)->valid_peer_names == NULL)))
+/* PO[C10] set_peer_names_attr.failed_set_has_no_effect: a refused value (EINVAL) leaves the previous names in place */
+__CPROVER_ensures(__CPROVER_return_value == -1 ==> BT(s)->valid_peer_names == __CPROVER_old(BT(s)->valid_peer_names))
+;
+
+/* ================================================================================================================ */
+/* C18: designating credentials on a socket (tls.cert_file ... tls.crl, by file or by value)                         */
+/* ================================================================================================================ */
+#define XV_VALUE_MAX (1UL << 16)      /* credential values above 64 KiB are not explored */
+static bool has_nul(const char *s, size_t len)
+__CPROVER_requires(len <= XV_VALUE_MAX && __CPROVER_is_fresh(s, len == 0 ? 1 : len))
+__CPROVER_assigns()
+__CPROVER_ensures((!__CPROVER_return_value && xv_j >= 0 && (size_t)xv_j < len) ==> s[xv_j] != '\0')
+;
+#define BT_ITEM_UNCHANGED(s, f) (BT(s)->f.type == __CPROVER_old(BT(s)->f.type) && BT(s)->f.data == __CPROVER_old(BT(s)->f.data) && BT(s)->f.sensitive == __CPROVER_old(BT(s)->f.sensitive) && \
+                                 xv_it_w_sets == __CPROVER_old(xv_it_w_sets) && xv_it_w_valsets == __CPROVER_old(xv_it_w_valsets) && xv_it_w_deinits == __CPROVER_old(xv_it_w_deinits))
+#define BT_REFUSED_LATE(s) (BT_IS_CONN(s) && BT_STATE(s) != conn_state_initialized)
+#define BT_SETTER_COMMON(s, f) (BT_FRESH(s) && (s->type == xcm_socket_type_conn || s->type == xcm_socket_type_server) && BT_ITEMS_OK(s) && xv_it_watch == &BT(s)->f && \
+                                BT_CONF_GHOST_RANGE && XV_SSL_CNT_OK(xv_it_w_valsets))
+/* by file: the item becomes FILE (not sensitive), whatever it designated before (file or value) is dropped, the mark (if the item has one) says "set on this socket" */
+#define BT_FILE_SETTER_CONTRACT(f, MARK_ASSIGN, MARK_SET, MARK_SAME) \
+__CPROVER_requires(BT_SETTER_COMMON(s, f) && __CPROVER_is_fresh(filename, 1)) \
+__CPROVER_assigns(xv_errno, BT(s)->f, XV_ITEM_ASSIGNS MARK_ASSIGN) \
+__CPROVER_ensures(BT_REFUSED_LATE(s) \
+        ? (__CPROVER_return_value == -1 && xv_errno == EACCES && BT_ITEM_UNCHANGED(s, f) MARK_SAME) \
+        : (__CPROVER_return_value == 0 && BT(s)->f.type == item_type_file && !BT(s)->f.sensitive && xv_it_w_sets == __CPROVER_old(xv_it_w_sets) + 1 && \
+           xv_it_w_deinits == __CPROVER_old(xv_it_w_deinits) + (__CPROVER_old(BT(s)->f.type) != item_type_none ? 1 : 0) MARK_SET))
+/* by value: NUL-free values only (EINVAL otherwise, nothing changed); the item becomes VALUE of exactly len bytes, sensitive iff it is the private key */
+#define BT_VALUE_SETTER_CONTRACT(f, sens, MARK_ASSIGN, MARK_SET, MARK_SAME) \
+__CPROVER_requires(BT_SETTER_COMMON(s, f) && len <= XV_VALUE_MAX && __CPROVER_is_fresh(value, len == 0 ? 1 : len)) \
+__CPROVER_assigns(xv_errno, BT(s)->f, XV_ITEM_ASSIGNS, xv_it_w_valsets, xv_it_w_vallen, xv_it_w_valsens MARK_ASSIGN) \
+__CPROVER_ensures(BT_REFUSED_LATE(s) ==> (__CPROVER_return_value == -1 && xv_errno == EACCES && BT_ITEM_UNCHANGED(s, f) MARK_SAME)) \
+__CPROVER_ensures((!BT_REFUSED_LATE(s) && __CPROVER_return_value == -1) ==> (xv_errno == EINVAL && BT_ITEM_UNCHANGED(s, f) MARK_SAME)) \
+__CPROVER_ensures((!BT_REFUSED_LATE(s) && xv_j >= 0 && (size_t)xv_j < len && BT_U8(value)[xv_j] == 0) ==> __CPROVER_return_value == -1) \
+__CPROVER_ensures(__CPROVER_return_value == 0 ==> (BT(s)->f.type == item_type_value && BT(s)->f.sensitive == (sens) && xv_it_w_valsets == __CPROVER_old(xv_it_w_valsets) + 1 && \
+           xv_it_w_vallen == len && xv_it_w_valsens == (sens) && \
+           xv_it_w_deinits == __CPROVER_old(xv_it_w_deinits) + (__CPROVER_old(BT(s)->f.type) != item_type_none ? 1 : 0) MARK_SET)) \
+__CPROVER_ensures(__CPROVER_return_value == 0 || __CPROVER_return_value == -1)
+#define BT_COMMA_TC_SET , BT(s)->tc_set
+#define BT_COMMA_CRL_SET , BT(s)->crl_set
+static int set_cert_file_attr(struct xcm_socket *s, void *context, const void *filename, size_t len)
+/* PO[C18] set_cert_file_attr.designates_file */
+BT_FILE_SETTER_CONTRACT(cert, , , )
+;
+static int set_key_file_attr(struct xcm_socket *s, void *context, const void *filename, size_t len)
+/* PO[C18] set_key_file_attr.designates_file */
+BT_FILE_SETTER_CONTRACT(key, , , )
+;
+static int set_tc_file_attr(struct xcm_socket *s, void *context, const void *filename, size_t len)
+/* PO[C18,C09] set_tc_file_attr.designates_file_and_marks */
+BT_FILE_SETTER_CONTRACT(tc, BT_COMMA_TC_SET, && BT(s)->tc_set == 1, && BT(s)->tc_set == __CPROVER_old(BT(s)->tc_set))
+;
+static int set_crl_file_attr(struct xcm_socket *s, void *context, const void *filename, size_t len)
+/* PO[C18,C09] set_crl_file_attr.designates_file_and_marks */
+BT_FILE_SETTER_CONTRACT(crl, BT_COMMA_CRL_SET, && BT(s)->crl_set == 1, && BT(s)->crl_set == __CPROVER_old(BT(s)->crl_set))
+;
+static int set_cert_attr(struct xcm_socket *s, void *context, const void *value, size_t len)
+/* PO[C18] set_cert_attr.designates_value */
+BT_VALUE_SETTER_CONTRACT(cert, 0, , , )
+;
+static int set_key_attr(struct xcm_socket *s, void *context, const void *value, size_t len)
+/* PO[C18] set_key_attr.designates_sensitive_value */
+BT_VALUE_SETTER_CONTRACT(key, 1, , , )
+;
+static int set_tc_attr(struct xcm_socket *s, void *context, const void *value, size_t len)
+/* PO[C18,C09] set_tc_attr.designates_value_and_marks */
+BT_VALUE_SETTER_CONTRACT(tc, 0, BT_COMMA_TC_SET, && BT(s)->tc_set == 1, && BT(s)->tc_set == __CPROVER_old(BT(s)->tc_set))
+;
+static int set_crl_attr(struct xcm_socket *s, void *context, const void *value, size_t len)
+/* PO[C18,C09] set_crl_attr.designates_value_and_marks */
+BT_VALUE_SETTER_CONTRACT(crl, 0, BT_COMMA_CRL_SET, && BT(s)->crl_set == 1, && BT(s)->crl_set == __CPROVER_old(BT(s)->crl_set))
 ;
 
 #include "contracts/end.h"
